@@ -1,9 +1,16 @@
 #!/bin/bash
-# Builds the framework offline (warms the Go build cache for the checks, which rebuild from /repo's current tree).
+# Builds the framework offline (warms the Go build caches for the checks, which rebuild from /repo's current tree).
 set -e
 cd "$(dirname "$0")"
 export GOFLAGS=-mod=mod GOPROXY=off GOSUMDB=off GOTOOLCHAIN=local CGO_ENABLED=1
+export VERIF_REPO="${VERIF_REPO:-/repo}"
 cp /repo/go.sum go.sum 2>/dev/null || true
 mkdir -p bin evidence replays
 go build -o bin/gfsim ./cmd/gfsim
+(cd tools/instrument && go build -o ../../bin/instrument .)
+# warm the -race and instrumented build caches
+. ./build_lib.sh
+W="$(mktemp -d /tmp/gfsim-setup-XXXXXX)"
+build_instrumented "$W" C09 || { rm -rf "$W"; exit 1; }
+rm -rf "$W"
 echo "setup ok"
